@@ -451,6 +451,9 @@ public:
         if (hasDataFrame(name)) {
             throw DuplicateName("create DataFrame");
         }
+        if (cols.empty()) {
+            throw std::invalid_argument("Block::createDataFrame: at least one column is needed!");
+        }
         std::set<std::string> names;
         for (const Column &c : cols) {
             if (!Variant::supports_type(c.dtype)) {
